@@ -176,7 +176,9 @@ func matchFrom(q, l Path) bool {
 		return true
 	}
 	if q[0].Name == "..." {
-		for skip := 0; skip <= len(l); skip++ {
+		// "..." stands for one or more intermediate elements (the zero-element
+		// reading is ambiguous in the gNMI conventions and is not generated)
+		for skip := 1; skip <= len(l); skip++ {
 			if matchFrom(q[1:], l[skip:]) {
 				return true
 			}
